@@ -3,6 +3,7 @@ import Libvna.Gen.Conv2All
 import Libvna.Props.C01
 import Libvna.Props.C04
 import Libvna.Props.C05
+import Libvna.Props.C06
 import Libvna.Props.C10
 import Libvna.Props.C12
 import Libvna.Props.C13
